@@ -17,6 +17,7 @@ mod c11;
 mod c18;
 mod c08;
 mod c14;
+mod c13;
 
 use ctx::{Ctx, Tier};
 
@@ -80,6 +81,7 @@ fn main() {
         "C16" => c16::run(&mut ctx),
         "C08" => c08::run(&mut ctx),
         "C14" => c14::run(&mut ctx),
+        "C13" => c13::run(&mut ctx),
         _ => {
             eprintln!("unknown property {}", prop);
             std::process::exit(2);
